@@ -28,6 +28,29 @@ try:
     from tools import vlib
 except ImportError:  # pragma: no cover
     import vlib
+try:
+    from tools import vvec
+except ImportError:  # pragma: no cover
+    import vvec
+
+TRANSLATOR_TIE_TEXT = (
+    "Second tie, translator (tools/c2vec.py, run on the CURRENT sources on every run; harness/C04/TieVec.v, TieVecDtor.v, "
+    "TieVecLoops.v; 70 tie theorems, all closed under the global context): 70 functions are regenerated statement by statement "
+    "(header fields in SSA style, every a_size operation mod 2^64, storage pointers as byte offsets, every memmove / memcpy / "
+    "a_swap / destructor / comparison / copy call through the model's checked accessors, a_alloc through the model's allocator, "
+    "every loop a Fixpoint on its own fuel) and each is proved EQUAL to the definition of VecDefs.v / AccDefs.v that vec_step / "
+    "buf_step are built from (lemmas link_*): all of vec.c except a_vec_swap (a_vec_new/ctor/dtor/die, setm with its growth loop "
+    "on fuel 128 and a_size_up/a_size_down as & ~7, setn, setz, sort, sort_fore, sort_back, push_sort, search, insert, "
+    "push_fore/back, remove, pull_fore/back, store, erase, inc_/dec_), all of buf.c (the same list; sizeof(a_buf) computed from "
+    "the structure), the 21 inline accessors and 4 aliases of vec.h / buf.h, and the byte loop of a_swap (src/a.c) against the "
+    "model's sl_swap. 50 statements are for EVERY state - invariant not assumed - and argument (a_vec_ctor / a_buf_ctor: for a "
+    "structure that owns no storage / a fresh block). The others under exactly the part of the invariant they need, each part "
+    "of arr_inv / vec_inv, which VecProofs.wstep_ok / history_ok prove for every reachable state: destructor loops of "
+    "setn/setz/erase/dtor/die (only when a destructor is given): 0 < siz, num <= slots owned, siz * slots < 2^64, fuel > num "
+    "(vector setn/setz/dtor/die: vec_inv before the capacity step); sort_fore/sort_back: the same three; a_vec_sort: num <= "
+    "slots; store with a copy callback: 0 < siz, siz * count < 2^64, fuel > count (and count = length of the source array in "
+    "both store theorems); a_swap: every slot has siz bytes, storage < 2^64 bytes, pointers inside or one past it, fuel > count. "
+    "Correspondence-only (not regenerated): a_vec_swap (structure assignment between two containers).")
 
 META = {
     "text": "Rocq theorems for ALL finite operation histories (two vectors incl. a_vec_swap, one fixed buffer, new/die) over "
@@ -45,14 +68,20 @@ META = {
             "it, destructor calls, allocator requests, siz/num/mem/contents and ledger after EVERY operation; every public "
             "function of vec.h/buf.h is called (ctor/dtor as well as new/die, the push/pull aliases, and all field and "
             "element accessors, checked and unchecked, evaluated after every operation and compared with the fields; the "
-            "unchecked ones are proved to stay inside owned storage without 64-bit wrap under the invariant).",
+            "unchecked ones are proved to stay inside owned storage without 64-bit wrap under the invariant). "
+            + TRANSLATOR_TIE_TEXT,
     "note": "Trusted: Coq kernel; extraction (ExtrOcamlBasic only) + harness/C04/mdrv.ml, drv.c and its allocator shim; "
             "hand-written model coq/C04/VecDefs.v tied by differential testing on the generated histories only (sizes 0-13, "
             "indices aimed at 0, num-1, num, num+1, 2^63, 2^64-1 and the wrap points); memcpy/memmove as list splices, "
             "realloc as a ledger that always moves, qsort as insertion sort (proved a sorted permutation; the harness "
             "comparator is proved a total order whose equivalence is identity, so any correct qsort gives the same result), "
             "bsearch as lookup; bytes of slots beyond num are not compared; memory safety of the C observed by ASan/UBSan, "
-            "proved only of the model. No axioms.",
+            "proved only of the model. Translator tools/c2vec.py: trusted to read the C right (clang JSON AST -> Gallina over "
+            "the model's own checked accessors; pointers into the storage as byte offsets from its base; realloc = the model's "
+            "resize_slots, a released block keeps its slot list; a destructor call = a checked read appended to a log, the "
+            "comparison callback = a Gallina function of the two elements, the copy callback = element copy returning 0; "
+            "qsort / bsearch = the model's insertion sort / lookup; C division by zero not flagged; left-to-right evaluation, "
+            "unsequenced operands refused); what its output says about the model is proved on every run. No axioms.",
     "technique": "Rocq proof (invariant + refinement to an abstract sequence by induction over histories, 64-bit wrap explicit) "
                  "+ extracted-model vs C correspondence under ASan/UBSan",
 }
@@ -1185,6 +1214,7 @@ def report_failure(ctx, cbin, hist, origin, reported):
 
 def run(ctx):
     ctx.prove()
+    tie = vvec.start(ctx)             # translator tie (tools/c2vec.py + harness/C04/TieVec*.v), beside the correspondence
     cbin, mbin = build(ctx)
     quick = ctx.quick
     rng = random.Random(ctx.subseed("histories"))
@@ -1265,6 +1295,7 @@ def run(ctx):
                     break
             j += 1
             n_ops += 1
+    vvec.finish(ctx, tie)
     if first_div is not None:
         hi, d = first_div
         c, m = cres[hi], (mres[hi] if hi < len(mres) else [])
